@@ -58,13 +58,23 @@ class M13(Machine):
                     mc.items[i] = (mk, nmc)
                     self.nconv += 1
 
-    def op_dumps(self, real, mc, enc_name, opts, ncalls, fresh):
-        """["dumps", cid, encoder, opts, ncalls, fresh-instance-per-call]"""
+    def op_dumps(self, real, mc, enc_name, opts, ncalls, fresh,
+                 between=None):
+        """["dumps", cid, encoder, opts, ncalls, fresh-instance-per-call,
+            [other encoder, its options] built between the calls]"""
         self.ndumps += 1
         results = []
         enc = None
         nchars = 2000 + 400 * sum(1 for _ in self.reg)
         for i in range(ncalls):
+            if between and i:
+                # somebody else builds (and uses) another encoder in between
+                try:
+                    other = make_encoder(between[0], between[1])
+                    if other is not None:
+                        other.encode(PVLGroup([("k", "v w x y z " * 12)]))
+                except Exception:   # noqa: BLE001
+                    pass
             if enc_name == "default":
                 def call():
                     return pvl.dumps(real, **opts)
@@ -124,6 +134,7 @@ class M13(Machine):
 class Gen13(HistGen):
     WORDS = ["ALPHA", "beta_2", "Two Words", "it's", "", "N/A", "a\tb",
              "line one\nline two", "x" * 50, "NULL", "12", "2001-01-01"]
+    interleaved = False
 
     def __init__(self, rng, machine):
         super().__init__(rng, machine, extra_ops=("dumps",),
@@ -192,7 +203,13 @@ class Gen13(HistGen):
         tops = [i for i in self.tops if i in self.m.reg]
         if tops and r.random() < 0.8:
             cid = r.choice(tops)
-        return ["dumps", cid, enc, opts, r.randint(2, 4), r.random() < 0.5]
+        op = ["dumps", cid, enc, opts, r.randint(2, 4), r.random() < 0.5]
+        if r.random() < 0.3:
+            op.append([r.choice(["PVL", "ODL", "PDS3", "ISIS"]),
+                       {"width": r.choice([20, 40, 60, 79, 80, 81, 120]),
+                        "indent": r.choice([0, 2, 4])}])
+            self.interleaved = True
+        return op
 
 
 class C13(C10):
